@@ -22,7 +22,10 @@ DEEP = [("grad", "mvmap", "jit"), ("grad", "mvmap", "jit", "scan"), ("grad", "mv
 
 # custom_vjp placements (the third opaque construct): alone, and once above / below every other construct
 VJP = [("custom_vjp",)] + [p for c in lowering.CONSTRUCTS for p in (("custom_vjp", c), (c, "custom_vjp"))] + \
-      [("mvmap", "custom_vjp", "vmap_b"), ("vmap_b", "mvmap", "custom_vjp"), ("scan", "mvmap", "custom_vjp"), ("grad", "mvmap", "custom_vjp")]
+      [("mvmap", "custom_vjp", "vmap_b"), ("vmap_b", "mvmap", "custom_vjp"), ("scan", "mvmap", "custom_vjp"), ("grad", "mvmap", "custom_vjp"),
+       # rule (ix): below a grad the custom rule runs inside whatever lies between (checkpoint stays opaque)
+       ("grad", "vmap_b", "custom_vjp"), ("grad", "vmap_b", "custom_jvp"), ("grad", "vmap_b", "checkpoint"), ("vmap_b", "grad", "custom_vjp"),
+       ("grad", "custom_vjp", "vmap_b"), ("grad", "vmap_u", "custom_jvp"), ("grad", "mvmap", "vmap_b", "custom_jvp"), ("jit", "grad", "vmap_b", "custom_jvp")]
 
 
 def required_ok(placement, seeded, outcome):
